@@ -156,6 +156,7 @@ func TestVerifC07(t *testing.T) {
 		c07Scenario("mute-tdc-udp-idle5m", tOpt{Kind: "tdc-udp", Callers: 1, Srv: srvOpt{Mute: true}, IdleTimeout: 5 * time.Minute}, d, 0, true),
 		c07Scenario("mute-pipeline-udp-idle5m", tOpt{Kind: "pipeline-udp", Callers: 1, Srv: srvOpt{Mute: true}, IdleTimeout: 5 * time.Minute}, d, 0, true),
 		c07Scenario("mute-pipeline-tcp-c2", tOpt{Kind: "pipeline-tcp", Callers: 2, Srv: srvOpt{Mute: true}}, dt, 0, true),
+		c07Scenario("runt-then-silent-tdc-udp", tOpt{Kind: "tdc-udp", Callers: 1, Srv: srvOpt{Short: true, Silent: true}}, d, 0, true),
 		c07Scenario("mute-reuse-seq2", tOpt{Kind: "reuse", Callers: 1, Seq: 2, Srv: srvOpt{Mute: true}}, d, 0, true),
 		// early timer firings (deadline expires between two steps): termination clauses only
 		c07Scenario("earlytimer-tdc-tcp", tOpt{Kind: "tdc-tcp", Callers: 1, Srv: srvOpt{CloseBudget: 1, Silent: true}, CtxMode: []int{1}}, 1, 1, false),
